@@ -22,6 +22,7 @@ import (
 	"github.com/mycoria/mycoria/m"
 
 	"mycoverif/core"
+	"mycoverif/fullmesh"
 	"mycoverif/ident"
 	"mycoverif/mesh"
 	"mycoverif/simnet"
@@ -39,6 +40,10 @@ type tracked struct {
 
 func run(e *core.Env) {
 	tp := e.Tape
+	if tp.Intn(12) == 0 {
+		runFullStack(e)
+		return
+	}
 	e.StartClock()
 	ms := mesh.Build(e, mesh.Options{MinNodes: 2, MaxNodes: 12, MaxExtraEdges: 3, TwoByteLabels: true, BigInfo: true, RoamingSome: tp.Chance(1, 2)})
 	ms.AutoReply = true
@@ -399,6 +404,85 @@ func run(e *core.Env) {
 	}
 	e.Ev("done", uint64(len(trk)), uint64(nc))
 	e.Sample("%d tracked frames, %d tracked crossings", len(trk), nc)
+}
+
+// runFullStack: the first sentence of the claim on the complete shipped stack - 3..6 real
+// top-level router instances on the simulated loopback interface (shipped TCP peering
+// protocol, handshake, link layer, keep-alives, switch, router; only the byte transport is
+// simulated), converged through their own announcements. Between every ordered pair of routers
+// a probe request is routed: it must be handed to the destination's handler and to no other
+// router's. The shipped ping-pong is then sent from A to B: the answer B seals must reach A
+// (the notification channel of A's request closes) within two simulated seconds of an
+// otherwise quiet mesh. Forwarding steps cannot be observed here (links are encrypted); the
+// per-crossing oracles stay with the frame-level meshes.
+func runFullStack(e *core.Env) {
+	tp := e.Tape
+	e.StartClock()
+	ms := fullmesh.Build(e, fullmesh.Options{MinNodes: 3, MaxNodes: 6, IdentBase: 8 * tp.Intn(2)})
+	n := len(ms.Insts)
+	e.Probe("fullstack_run")
+	if !ms.Converge() {
+		// whether honest routers peer and stay linked is C20's / C16's subject
+		e.Probe("fullstack_mesh_did_not_converge")
+		return
+	}
+	ms.CheckPanics("after convergence")
+	for u := 0; u < n; u++ {
+		for v := 0; v < n; v++ {
+			if u == v {
+				continue
+			}
+			U, V := ms.Insts[u], ms.Insts[v]
+			if rte, isDst := U.In.RoutingTable().LookupNearest(V.IP); rte == nil || !isDst {
+				// reach is C09's claim; C10 speaks of converged meshes
+				e.Probe("fullstack_mesh_did_not_converge")
+				return
+			}
+		}
+	}
+	for _, u := range tp.Perm(n) {
+		for _, v := range tp.Perm(n) {
+			if u == v || !tp.Chance(2, 3) {
+				continue
+			}
+			U, V := ms.Insts[u], ms.Insts[v]
+			ms.TakeProbes()
+			payload := fmt.Sprintf("req %d>%d", u, v)
+			if err := ms.SendProbe(u, v, payload); err != nil {
+				e.Fail("full-stack/request-not-routable", "%s cannot route a request to %s in a converged mesh: %v", U.Name, V.Name, err)
+			}
+			ms.CN.RunFor(tp, 2*time.Second, 20000)
+			got := false
+			for _, g := range ms.TakeProbes() {
+				if g.Payload != payload {
+					continue
+				}
+				if g.At != v {
+					e.Fail("full-stack/request-handled-at-wrong-router", "request %s>%s was handed to the handlers of %s", U.Name, V.Name, ms.Insts[g.At].Name)
+				}
+				if got {
+					e.Fail("full-stack/request-handled-twice", "request %s>%s was handed to the destination's handlers twice", U.Name, V.Name)
+				}
+				got = true
+			}
+			if !got {
+				e.Fail("full-stack/request-not-delivered", "%s mesh of %d real instances, edges %v: request %s>%s was not handed to the destination", ms.Kind, n, ms.Edges, U.Name, V.Name)
+			}
+			notify, _, err := U.In.Router().PingPong.Send(V.IP, false, 0)
+			if err != nil {
+				e.Fail("full-stack/request-not-routable", "%s cannot send a ping to %s in a converged mesh: %v", U.Name, V.Name, err)
+			}
+			ms.CN.RunFor(tp, 2*time.Second, 20000)
+			select {
+			case <-notify:
+				e.Probe("fullstack_reply_reached_requester")
+			default:
+				e.Fail("full-stack/reply-does-not-reach-requester", "%s mesh of %d real instances, edges %v: %s pinged %s, no answer reached it within 2 s", ms.Kind, n, ms.Edges, U.Name, V.Name)
+			}
+		}
+	}
+	ms.CheckPanics("after requests")
+	e.Sample("full stack: %s mesh of %d real instances, request and reply between the router pairs", ms.Kind, n)
 }
 
 func putUvarint(buf []byte, x uint64) int {
